@@ -40,6 +40,107 @@ prop(
 )
 
 
+_ENGINE_NOTE = ("Trusted: the harness' device runner (EV_SYN fences on an unbuffered event channel), the receiver/monitor code and, where named, "
+                "the ~200-line reference model in model.go written from the property text and README. Configurations go through the real ParseData. "
+                "Histories are sampled (rapid), not enumerated, except where a part says so; |octave| <= 12, |semitone| <= 120.")
+
+prop(
+    "C01", "fault_enumeration",
+    "rapid-generated device descriptions (1-3 mappings, 2-8 collision-prone note keys on 1-2 sub-handlers, all action keys incl. panic, "
+    "0-2 key-emulating axes, 4 collision modes) x alternating press/release histories of 1-60 events (state-changing taps while keys are held, "
+    "bursts, key repeats, MIDI-in noise, unmapped keys, axis moves); the event stream is closed after the last event, so the random length is "
+    "the injected disconnect point; TestC01Cuts additionally runs EVERY prefix of generated histories. Oracle: a receiver "
+    "(Note On adds, Note Off / CC123 removes) must have nothing sounding whenever no key is down and all axes are at rest, and after "
+    "ProcessEvents returns; nothing may be emitted afterwards. Non-trivial = (a state-changing action while a note key was held AND a second "
+    "note key overlapping) OR disconnect with a key/axis held; distinct by hash of (description, history).",
+    [
+        dict(test="TestC01", shards=16, checks_quick=1500, checks_thorough=60000),
+        dict(test="TestC01Cuts", shards=16, checks_quick=60, checks_thorough=2500),
+    ],
+    level_text="Generated-history search with disconnect injected at every prefix of bounded histories (fault enumeration over cut points) and "
+               "at random points of longer ones; the oracle is receiver-side only, so it does not depend on which messages HIDI chooses to send.",
+    level_note=_ENGINE_NOTE,
+    technique="stateful property-based testing (rapid) with receiver-side oracle + disconnect injection at every prefix",
+)
+
+prop(
+    "C02", "exploration",
+    "Same world generator, biased: after 70% of note presses 1-4 state-changing taps (octave/semitone/channel/mapping/multinote/cc_learning) "
+    "are inserted before the release; mappings where the held key is unmapped or mapped to another note; offsets that wrap. Oracle: every "
+    "Note Off at a key's release carries exactly the channel/pitch of the Note On observed at its press (reference model when the mode "
+    "suppressed the Note On), exactly one in mode off, at most one otherwise, never a Note On; every octave/semitone/channel/mapping/"
+    "multinote/cc_learning press or release emits zero messages. Non-trivial = at least one key released under a different "
+    "(octave, semitone, channel, mapping) than at its press; distinct by hash of the case.",
+    [dict(test="TestC02", shards=16, checks_quick=1500, checks_thorough=60000)],
+    level_text="Generated-history search against a wire-level pairing oracle (observed Note On vs observed Note Off per key).",
+    level_note=_ENGINE_NOTE,
+    technique="stateful property-based testing (rapid), observed-press/observed-release pairing oracle",
+)
+
+prop(
+    "C03", "exploration",
+    "Worlds with 2-8 note keys whose base notes lie within +-2 semitones / +-1-2 octaves of one centre and offsets in {0,1,7,15}, so that "
+    "keys collide directly, through transposition taps made between presses, or through channel changes; 4 modes. TestC03Words enumerates "
+    "ALL alternating press/release words over 3 colliding keys up to length 8 (quick: 6) per mode. Oracle: reference model of the four emission "
+    "rules, exact message sequence per press/release step. Non-trivial = a press or release while >= 1 other key holds the same "
+    "(channel, pitch); distinct by hash of the case.",
+    [
+        dict(test="TestC03", shards=16, checks_quick=1500, checks_thorough=60000),
+        dict(test="TestC03Words", shards_quick=4, shards_thorough=16, replayable=False),
+    ],
+    level_text="Generated-history search plus bounded-exhaustive press/release words, compared step by step with a reference model of the mode rules.",
+    level_note=_ENGINE_NOTE,
+    technique="model-based property-based testing (rapid) + bounded exhaustive word enumeration vs reference model",
+)
+
+prop(
+    "C04", "exploration",
+    "Worlds with defaults anywhere (octave -10..10, semitone -60..60, channel 1-16, velocity 0/1/64/100/127, any default mapping), base notes "
+    "0-127, offsets {0,1,7,15}; histories of taps, bursts of up to 14 taps (reaching |octave| 12, channel 16, last mapping), holds, up/down pairs "
+    "pressed and released in both orders; generator keeps the quantifier's precondition (no action pressed while a complete pair is held). "
+    "TestC04Grid enumerates every base note x octave -12..12 x semitone in {-13,-1,0,1,13} x channel x offset. Oracle: after every step "
+    "State() equals the reference model; every note press emits exactly NoteOn(((ch-1+off) mod 16)+1, base+12*oct+semi, velocity) or nothing "
+    "when out of 0-127. Non-trivial = out-of-range press, |12*octave| > 127, wrapping offset, saturating step or pair reset.",
+    [
+        dict(test="TestC04", shards=16, checks_quick=1500, checks_thorough=60000),
+        dict(test="TestC04Grid", shards=16, replayable=False),
+    ],
+    level_text="Generated-history search plus an exhaustive arithmetic grid, compared with a reference model in unbounded integers.",
+    level_note=_ENGINE_NOTE,
+    technique="model-based property-based testing (rapid) + exhaustive arithmetic grid vs reference model",
+)
+
+prop(
+    "C13", "exploration",
+    "Base histories without panic (C03-like worlds that always have a panic key) and a panic press inserted at a generated index (thorough: "
+    "TestC13All inserts at EVERY legal index), released immediately or a few events later; never while a complete up/down pair is held. "
+    "Oracle: (1) the panic step emits only CC123 and Note Offs on the current channel, CC123 present, all 128 pitches covered, state unchanged; "
+    "(2) metamorphic: every other step emits exactly what the same history without the panic emits (releases of keys held across the panic may "
+    "emit nothing instead), states equal; (3) quiescence/disconnect leave nothing sounding. Non-trivial = panic with >= 1 key held and a later press.",
+    [
+        dict(test="TestC13", shards=16, checks_quick=1000, checks_thorough=40000),
+        dict(test="TestC13All", shards=16, checks_quick=40, checks_thorough=1500),
+    ],
+    level_text="Generated-history search with a metamorphic oracle (history with panic vs the same history without).",
+    level_note=_ENGINE_NOTE,
+    technique="metamorphic property-based testing (rapid): with-panic vs without-panic runs of the real device",
+)
+
+prop(
+    "C14", "exploration",
+    "Worlds with an exit sequence of 0-3 keys drawn from note keys, action keys (incl. panic) and unmapped keys; histories of up to 40 "
+    "alternating events biased (60%) to the sequence keys so that completions in every order, partial holds and early releases are frequent. "
+    "Oracle: no signal before the first step at which all sequence keys are down; at that press exactly one signal, zero MIDI messages and "
+    "State() unchanged; empty sequence: never a signal; the history ends with a disconnect and nothing may stay sounding. Nothing is asserted "
+    "about presses after the first completion. Non-trivial = sequence of >= 2 keys completed by a key other than the last configured one, "
+    "a sequence key that is also a note/action key, or a near miss (a sequence key released before completion).",
+    [dict(test="TestC14", shards=16, checks_quick=1500, checks_thorough=60000)],
+    level_text="Generated-history search against a direct statement of the exit-sequence rule (held-set oracle).",
+    level_note=_ENGINE_NOTE,
+    technique="stateful property-based testing (rapid) with held-set oracle on the signal channel",
+)
+
+
 # Properties not (yet) claimed. Kept current by hand; every id of properties.jsonl is either in PROPS or here.
 _PENDING = "check not built yet in this round; planned as property-based test per DESIGN.md"
 NOT_APPLICABLE = [{"property_id": "C%02d" % i, "reason": _PENDING} for i in range(1, 21) if "C%02d" % i not in PROPS]
